@@ -458,3 +458,179 @@ Proof.
     now rewrite (resolve_bound _ _ Ht), (resolve_ser _ _ Hwf Ht).
   - destruct (port_type_resolve reg h i k) as [E|(n & c & _ & _ & _ & E)]; rewrite E, ?Et; auto.
 Qed.
+
+(* ------------------------------------------------------------------ the computing relations are sound *)
+Lemma list_eqb_eq {A} (f : A -> A -> bool) : (forall a b, f a b = true -> a = b) ->
+  forall l m, list_eqb f l m = true -> l = m.
+Proof. intros H l m E. rewrite list_eqb_leq in E. eapply leq_eq; [|exact E]. apply Forall_forall. auto. Qed.
+Lemma option_eqb_eq {A} (f : A -> A -> bool) : (forall a b, f a b = true -> a = b) ->
+  forall x y, option_eqb f x y = true -> x = y.
+Proof. intros H [a|] [b|]; cbn; try discriminate; auto. intros E. f_equal. auto. Qed.
+Lemma nat_eqb_eq a b : Nat.eqb a b = true -> a = b.
+Proof. apply Nat.eqb_eq. Qed.
+Lemma N_eqb_eq a b : N.eqb a b = true -> a = b.
+Proof. apply N.eqb_eq. Qed.
+
+Lemma node_frame_b_sound {A B} (n : node A md) (n' : node B md) : node_frame_b n n' = true -> node_frame n n'.
+Proof.
+  unfold node_frame_b, node_frame. rewrite !andb_true_iff. intros ((((H1 & H2) & H3) & H4) & H5).
+  apply (option_eqb_eq _ nat_eqb_eq) in H1. apply (list_eqb_eq _ nat_eqb_eq) in H2.
+  apply N.eqb_eq in H3. apply Nat.eqb_eq in H4. apply Nat.eqb_eq in H5. auto.
+Qed.
+Lemma aoff_eqb_eq a b : aoff_eqb a b = true -> a = b.
+Proof. destruct a, b; cbn; try discriminate; auto. intros E. apply Nat.eqb_eq in E. now subst. Qed.
+Lemma port_eqb_eq (a b : port) : port_eqb a b = true -> a = b.
+Proof.
+  destruct a, b. unfold port_eqb. cbn. rewrite andb_true_iff. intros [H1 H2].
+  apply Nat.eqb_eq in H1. apply aoff_eqb_eq in H2. now subst.
+Qed.
+Lemma link_eqb_eq (a b : link) : link_eqb a b = true -> a = b.
+Proof.
+  destruct a, b. unfold link_eqb. cbn. rewrite andb_true_iff. intros [H1 H2].
+  apply port_eqb_eq in H1. apply port_eqb_eq in H2. now subst.
+Qed.
+Lemma links_eqb_eq a b : list_eqb link_eqb a b = true -> a = b.
+Proof. apply list_eqb_eq. exact link_eqb_eq. Qed.
+
+(* the local loops of rval_b / sval_rel as list functions *)
+Definition slots_b (f : hop -> hop -> bool) : list (option nodeT) -> list (option nodeT) -> bool :=
+  fix go l m :=
+    match l, m with
+    | [], [] => true
+    | None :: r, None :: s => go r s
+    | Some n :: r, Some n' :: s => node_frame_b n n' && f (n_op n) (n_op n') && go r s
+    | _, _ => false
+    end.
+Lemma rval_b_func reg b b' :
+  rval_b reg (VFunc b) (VFunc b') =
+  Nat.eqb (h_root b') (h_root b) && list_eqb link_eqb (h_links b') (h_links b) &&
+  slots_b (rhop_b reg) (h_nodes b) (h_nodes b').
+Proof. reflexivity. Qed.
+Lemma rval_b_sum reg k vs k' vs' : rval_b reg (VSum k vs) (VSum k' vs') = N.eqb k k' && leq (rval_b reg) vs vs'.
+Proof. reflexivity. Qed.
+Lemma slots_b_sound (f : hop -> hop -> bool) (R : hop -> hop -> Prop) l :
+  Forall (slot_all (fun o => forall o', f o o' = true -> R o o')) l ->
+  forall m, slots_b f l m = true -> Forall2 (slot_rel (fun n n' : nodeT => node_frame n n' /\ R (n_op n) (n_op n'))) l m.
+Proof.
+  induction 1 as [|x l Hx _ IH]; intros [|y m]; try destruct x as [n|]; try destruct y as [n'|];
+    cbn; try discriminate; [constructor| |].
+  - rewrite !andb_true_iff. intros [[H1 H2] H3]. constructor; [|auto]. constructor.
+    split; [now apply node_frame_b_sound|]. now apply Hx.
+  - intros H. constructor; [constructor|auto].
+Qed.
+
+Lemma rhop_b_sound_both reg :
+  (forall a b, rhop_b reg a b = true -> RHop reg a b) /\ (forall v w, rval_b reg v w = true -> RVal reg v w).
+Proof.
+  apply hop_both_ind.
+  - intros o [o'|? ? ? ?|?]; cbn; try discriminate. intros H. constructor. now apply rop_b_sound.
+  - intros k a b l [?|k' a' b' l'|?]; cbn; try discriminate. rewrite !andb_true_iff. intros [[[H1 H2] H3] H4].
+    apply N.eqb_eq in H1. apply (option_eqb_eq _ nat_eqb_eq) in H2. apply (option_eqb_eq _ nat_eqb_eq) in H3.
+    apply (list_eqb_eq _ (option_eqb_eq _ ty_eqb_eq)) in H4. subst. constructor.
+  - intros v IH [?|? ? ? ?|w]; cbn; try discriminate. intros H. constructor. now apply IH.
+  - intros b IH [b'|? ?|?]; try (cbn; discriminate). rewrite rval_b_func, !andb_true_iff. intros [[H1 H2] H3].
+    apply Nat.eqb_eq in H1. apply links_eqb_eq in H2. constructor; auto. eapply slots_b_sound; eauto.
+  - intros k vs IH [?|k' vs'|?]; try (cbn; discriminate). rewrite rval_b_sum, andb_true_iff. intros [H1 H2].
+    apply N.eqb_eq in H1. subst. constructor. eapply leq_Forall2; eauto.
+  - intros k [?|? ?|k']; cbn; try discriminate. intros H. apply N.eqb_eq in H. subst. constructor.
+Qed.
+Lemma rhugr_b_sound reg h h' : rhugr_b reg h h' = true -> RHugr reg h h'.
+Proof.
+  unfold rhugr_b, RHugr. rewrite !andb_true_iff. intros [[H1 H2] H3]. apply Nat.eqb_eq in H1. apply links_eqb_eq in H2.
+  repeat split; auto. rewrite list_eqb_leq in H3. eapply leq_Forall2; [|exact H3]. apply Forall_forall.
+  intros [n|] _ [n'|]; cbn; try discriminate; [|constructor]. rewrite andb_true_iff. intros [Ha Hb]. constructor.
+  split; [now apply node_frame_b_sound|]. now apply rhop_b_sound_both.
+Qed.
+
+(* documents *)
+Lemma same_but_descr_b_sound reg a b : same_but_descr_b reg a b = true -> same_but_descr reg a b.
+Proof.
+  destruct a as [c|x|k], b as [c'|x'|k']; cbn [same_but_descr_b same_but_descr];
+    try (intros H; apply op_eqb_eq in H; congruence).
+  rewrite !andb_true_iff, orb_true_iff. intros [[[[H1 H2] H3] H4] H5].
+  apply N.eqb_eq in H1. apply N.eqb_eq in H2. apply ft_eqb_eq in H3. apply tyargs_eqb_eq in H4.
+  repeat split; auto. destruct H5 as [H5|H5]; [left; now apply N.eqb_eq|right].
+  apply existsb_exists in H5 as [d [Hd E]]. exists d. split; [now apply In_defs_op|now apply N.eqb_eq].
+Qed.
+
+Section SopInd.
+  Variables (P : sop -> Prop) (Q : sval -> Prop).
+  Hypothesis SOp_ : forall o, P (SOp o).
+  Hypothesis SOther_ : forall k, P (SOther k).
+  Hypothesis SConst_ : forall v, Q v -> P (SConst v).
+  Hypothesis SVFunc_ : forall d, Forall (fun n => P (s_op n)) (s_nodes d) -> Q (SVFunc d).
+  Hypothesis SVSum_ : forall k vs, Forall Q vs -> Q (SVSum k vs).
+  Hypothesis SVLeaf_ : forall k, Q (SVLeaf k).
+  Fixpoint sop_ind2 (o : sop) : P o :=
+    match o with
+    | SOp o => SOp_ o
+    | SOther k => SOther_ k
+    | SConst v => SConst_ v (sval_ind2 v)
+    end
+  with sval_ind2 (v : sval) : Q v :=
+    match v with
+    | SVFunc d =>
+        SVFunc_ d ((fix go (l : list (snode sop)) : Forall (fun n => P (s_op n)) l :=
+                      match l with [] => Forall_nil _ | x :: r => Forall_cons x (sop_ind2 (s_op x)) (go r) end) (s_nodes d))
+    | SVSum k vs =>
+        SVSum_ k vs ((fix go (l : list sval) : Forall Q l :=
+                        match l with [] => Forall_nil _ | x :: r => Forall_cons x (sval_ind2 x) (go r) end) vs)
+    | SVLeaf k => SVLeaf_ k
+    end.
+  Lemma sop_both_ind : (forall o, P o) /\ (forall v, Q v).
+  Proof. split; [exact sop_ind2|exact sval_ind2]. Qed.
+End SopInd.
+
+Definition snodes_b (f : sop -> sop -> bool) : list (snode sop) -> list (snode sop) -> bool :=
+  leq (fun a b => Nat.eqb (s_parent b) (s_parent a) && f (s_op a) (s_op b)).
+Lemma sval_rel_func rel d d' :
+  sval_rel rel (SVFunc d) (SVFunc d') =
+  list_eqb sedge_eqb (s_edges d') (s_edges d) && smeta_eqb (s_meta d') (s_meta d) &&
+  snodes_b (sop_rel rel) (s_nodes d) (s_nodes d').
+Proof. reflexivity. Qed.
+Lemma sval_rel_sum rel k vs k' vs' : sval_rel rel (SVSum k vs) (SVSum k' vs') = N.eqb k k' && leq (sval_rel rel) vs vs'.
+Proof. reflexivity. Qed.
+
+Lemma sport_eqb_eq (a b : sport) : sport_eqb a b = true -> a = b.
+Proof.
+  destruct a, b. unfold sport_eqb. cbn. rewrite andb_true_iff. intros [H1 H2].
+  apply Nat.eqb_eq in H1. apply (option_eqb_eq _ nat_eqb_eq) in H2. now subst.
+Qed.
+Lemma sedges_eqb_eq a b : list_eqb sedge_eqb a b = true -> a = b.
+Proof.
+  apply list_eqb_eq. intros [a1 a2] [b1 b2]. unfold sedge_eqb. cbn. rewrite andb_true_iff. intros [H1 H2].
+  apply sport_eqb_eq in H1. apply sport_eqb_eq in H2. now subst.
+Qed.
+Lemma smeta_eqb_eq a b : smeta_eqb a b = true -> a = b.
+Proof. apply option_eqb_eq. apply list_eqb_eq. apply option_eqb_eq. exact N_eqb_eq. Qed.
+
+Lemma snodes_b_sound (f : sop -> sop -> bool) (R : sop -> sop -> Prop) l :
+  Forall (fun n => forall o', f (s_op n) o' = true -> R (s_op n) o') l ->
+  forall m, snodes_b f l m = true -> Forall2 (fun a b => s_parent b = s_parent a /\ R (s_op a) (s_op b)) l m.
+Proof.
+  intros H m Hm. unfold snodes_b in Hm. eapply leq_Forall2; [|exact Hm].
+  eapply Forall_impl; [|exact H]. cbn. intros a Ha b. rewrite andb_true_iff. intros [H1 H2].
+  apply Nat.eqb_eq in H1. auto.
+Qed.
+
+Lemma sop_rel_sound_both reg :
+  (forall a b, sop_rel (same_but_descr_b reg) a b = true -> SameSop reg a b) /\
+  (forall v w, sval_rel (same_but_descr_b reg) v w = true -> SameSval reg v w).
+Proof.
+  apply sop_both_ind.
+  - intros o [o'|?|?]; cbn; try discriminate. intros H. constructor. now apply same_but_descr_b_sound.
+  - intros k [?|k'|?]; cbn; try discriminate. intros H. apply N.eqb_eq in H. subst. constructor.
+  - intros v IH [?|?|w]; cbn; try discriminate. intros H. constructor. now apply IH.
+  - intros d IH [d'|? ?|?]; try (cbn; discriminate). rewrite sval_rel_func, !andb_true_iff. intros [[H1 H2] H3].
+    apply sedges_eqb_eq in H1. apply smeta_eqb_eq in H2. constructor; auto. eapply snodes_b_sound; eauto.
+  - intros k vs IH [?|k' vs'|?]; try (cbn; discriminate). rewrite sval_rel_sum, andb_true_iff. intros [H1 H2].
+    apply N.eqb_eq in H1. subst. constructor. eapply leq_Forall2; eauto.
+  - intros k [?|? ?|k']; cbn; try discriminate. intros H. apply N.eqb_eq in H. subst. constructor.
+Qed.
+Lemma same_doc_b_sound reg d d' : same_doc_b reg d d' = true -> SameDoc reg d d'.
+Proof.
+  unfold same_doc_b, doc_rel, SameDoc. rewrite !andb_true_iff. intros [[H1 H2] H3].
+  apply sedges_eqb_eq in H1. apply smeta_eqb_eq in H2. repeat split; auto.
+  rewrite list_eqb_leq in H3. eapply leq_Forall2; [|exact H3]. apply Forall_forall. intros a _ b.
+  rewrite andb_true_iff. intros [Ha Hb]. apply Nat.eqb_eq in Ha. split; auto. now apply sop_rel_sound_both.
+Qed.
